@@ -414,6 +414,33 @@ func (P *Program) Callers(fn *ssa.Function) []ssa.CallInstruction {
 		for _, ci := range P.dynCalls {
 			if callee := P.closureValue(ci.Common().Value, 0); callee != nil {
 				ho[callee] = append(ho[callee], ci)
+				continue
+			}
+			// a function-typed parameter that different callers bind to different literals (a shared body that is
+			// handed its varying steps): this call invokes each of those literals
+			prm, ok := ci.Common().Value.(*ssa.Parameter)
+			if !ok {
+				continue
+			}
+			h := prm.Parent()
+			pi := -1
+			for i, q := range h.Params {
+				if q == prm {
+					pi = i
+				}
+			}
+			if pi < 0 || !P.IsProductFunc(h) {
+				continue
+			}
+			seenLit := map[*ssa.Function]bool{}
+			for _, cs := range P.callers[h] {
+				if pi >= len(cs.Common().Args) {
+					continue
+				}
+				if lit := P.closureValue(cs.Common().Args[pi], 0); lit != nil && !seenLit[lit] {
+					seenLit[lit] = true
+					ho[lit] = append(ho[lit], ci)
+				}
 			}
 		}
 		P.callersHO = ho
